@@ -24,7 +24,7 @@ ENCODED = ["twisted.web.http_headers:_sanitizeLinearWhitespace", "twisted.web.ht
            "twisted.web.http:HTTPChannel.writeHeaders", "twisted.web.http:HTTPChannel.write",
            "twisted.web.http:HTTPChannel.writeSequence", "twisted.web.http:toChunk"]
 BOUNDS = {"quick": {"s": 3, "nm": 2, "hv": 2, "rs": 3, "ck": 1, "cv": 2, "ca": 1, "bw": 2},
-          "thorough": {"s": 5, "nm": 3, "hv": 3, "rs": 4, "ck": 2, "cv": 2, "ca": 3, "bw": 3}}
+          "thorough": {"s": 5, "nm": 3, "hv": 3, "rs": 4, "ck": 2, "cv": 2, "ca": 2, "bw": 3}}
 B = {}
 BOUNDS_TEXT = ("_sanitizeLinearWhitespace on every text of <= s bytes; header names of <= nm bytes (bytes or "
                "text, set or add); header values of <= hv characters (bytes 0..255, or text of any code "
@@ -623,13 +623,21 @@ def _len_shards(var, hi, lo=0):
     return [("len(%s) == %d" % (var, n),) for n in range(lo, hi + 1)]
 
 
+# first character of a 3-byte header name by token-character class (the validity check forks ~19 ways
+# per character)
+_FIRST = ["name[0] < '#'", "'#' <= name[0] < '*'", "'*' <= name[0] < '-'", "'-' <= name[0] < '0'",
+          "'0' <= name[0] < 'A'", "'A' <= name[0] < '^'", "'^' <= name[0] < '|'", "'|' <= name[0] < '~'",
+          "'~' <= name[0]"]
+
 HARNESSES = [
     H(sanitize, shards=lambda tier: _len_shards("value", BOUNDS[tier]["s"]), timeout={"quick": 60, "thorough": 900}),
     H(header_name, shards=lambda tier: [("len(name) == %d" % n, "as_text == %s" % x)
                                         for n in range(2) for x in (False, True)] +
-                                       [("len(name) == %d" % n, "as_text == %s" % x, "name[0] %s '@'" % op)
-                                        for n in range(2, BOUNDS[tier]["nm"] + 1) for x in (False, True)
-                                        for op in ("<", ">=")],
+                                       [("len(name) == 2", "as_text == %s" % x, "name[0] %s '@'" % op)
+                                        for x in (False, True) for op in ("<", ">=")] +
+                                       [("len(name) == %d" % n, "as_text == %s" % x, rng)
+                                        for n in range(3, BOUNDS[tier]["nm"] + 1) for x in (False, True)
+                                        for rng in _FIRST],
       timeout={"quick": 90, "thorough": 1500}),
     H(header_value, shards=lambda tier: [("len(value) == %d" % n, "as_text == %s" % x)
                                          for n in range(BOUNDS[tier]["hv"] + 1) for x in (False, True)],
